@@ -284,6 +284,24 @@ def run_case(case, tier):
                     return Message(H.from_dict(d["header"]), cls.from_dict(d["data"]))
 
                 cmpM("message_dict", via_dict)
+                # the same Message object is changed through the validated API and converted again: every conversion
+                # describes the object as it is now
+                try:
+                    M.header.msg_count = (M.header.msg_count + 12345) % (2 ** 31)
+                    M.header.dest_mod_id = (M.header.dest_mod_id + 1) % 200
+                    m2 = fill(cls(), "random", rng)
+                    M.data = m2
+                    hraw_old, raw_old = hraw, raw
+                    hraw, raw = bytes(M.header), bytes(M.data)
+                    cmpM("message_json_min_after_change", lambda: Message.from_json(M.to_json(minify=True)))
+                    cmpM("message_json_indent_after_change", lambda: Message.from_json(M.to_json()))
+                    cmpM("message_dict_after_change", via_dict)
+                    bump("conversions_after_change", 3)
+                    M.header.msg_count = h.msg_count
+                    hraw, raw = bytes(M.header), bytes(M.data)
+                    m = M.data
+                except Exception as e:
+                    V.append({"mech": "change_after_conversion_failed", "detail": f"{cls.__name__}: {type(e).__name__}: {str(e)[:200]}"})
                 bump("copies_checked")
                 try:
                     MC = Message.copy(M)
